@@ -404,6 +404,26 @@ fn exec_kdf(case: &Value) -> Value {
         let class = match l { 0 => "0", 1 => "1", 2..=124 => "2_124", 125..=127 => "125_127", 128 => "128", 129..=1023 => "129_1023", _ => "1k" };
         bump(&mut feat, &format!("len_{}_{}", n, class));
     }
+    // a side whose OWN key is public-only fails with MissingSecretKey (Input); a side that holds all it needs works
+    if same_curve && !all_secret && target_len(&a.target).map(|n| n <= 32).unwrap_or(false) && a.tag.len() <= 128 {
+        let send_needs: Vec<&Value> = if a.mode == "1pu" { vec![&a.eph, &a.snd] } else { vec![&a.eph] };
+        for (side, got, complete) in [("send", &send, send_needs.iter().all(|k| has_secret(k))), ("recv", &recv, has_secret(&a.rcp))] {
+            match (complete, got) {
+                (false, Err(e)) if err_kind_name(e.kind()) == "Input" => bump(&mut feat, "public_only_own_key_refused"),
+                (false, other) => fail(&mut oracle, format!("kdf:{}:{}:public-only-own-key:expected-Input→{}", a.mode, side,
+                    match other { Ok(_) => "key".to_string(), Err(e) => err_kind_name(e.kind()).to_string() }), json!({"ctx": ctx})),
+                (true, Ok(_)) => bump(&mut feat, "public_only_peer_key_ok"),
+                (true, Err(e)) => fail(&mut oracle, format!("kdf:{}:{}:public-only-peer-key:expected-key→{}", a.mode, side, err_kind_name(e.kind())), json!({"ctx": ctx})),
+            }
+        }
+        if !has_secret(&a.eph) {
+            match &kx {
+                Err(e) if err_kind_name(e.kind()) == "Input" => bump(&mut feat, "public_only_kx_refused"),
+                other => fail(&mut oracle, format!("kx:{}:public-only-own-key:expected-Input→{}", curve,
+                    match other { Ok(_) => "key".to_string(), Err(e) => err_kind_name(e.kind()).to_string() }), json!({"ctx": ctx})),
+            }
+        }
+    }
     // Diffie-Hellman is symmetric
     if well_formed {
         match (&z_s, &z_r) {
@@ -1021,6 +1041,30 @@ pub fn gen(r: &mut Rng, thorough: bool, count: Option<usize>) -> Vec<Value> {
             7 | 8 => gen_box(&mut rr, id, thorough),
             _ => gen_seal(&mut rr, id, thorough),
         });
+    }
+    out.extend(pubonly_cases(r));
+    out
+}
+
+/// COVERAGE.md row 10: a PUBLIC-only own key (ephemeral / sender on the sending side, recipient on the receiving side) on every
+/// curve, both modes: the side that needs the missing secret must fail with MissingSecretKey (Input), the other side must work.
+/// The public keys are valid points (computed from a generated secret with the library's own `to_public_bytes`).
+fn pubonly_cases(r: &mut Rng) -> Vec<Value> {
+    let mut out = vec![];
+    for curve in CURVES {
+        for mode in ["es", "1pu"] {
+            for role in ["eph", "snd", "rcp"] {
+                if mode == "es" && role == "snd" { continue; }
+                let mut case = json!({"id": format!("pubonly-{}-{}-{}", curve, mode, role), "kind": "c15:kdf", "mode": mode,
+                    "target": *r.pick(&["a128gcm", "a256gcm", "a128kw", "a256kw", "c20p", "xc20p", "a128cbchs256"]),
+                    "eph": gen_key(r, curve), "snd": gen_key(r, curve), "rcp": gen_key(r, curve),
+                    "alg": hexs(b"ECDH-1PU+A128KW"), "apu": hexs(b"Alice"), "apv": hexs(b"Bob"),
+                    "tag": if mode == "1pu" { hexs(&r.bytes(16)) } else { json!("") }, "perturb": []});
+                let pk = build_key(&case[role]).and_then(|(_, p)| p.to_public_bytes()).map(|b| hex::encode(b.as_ref())).unwrap_or_default();
+                case[role] = json!({"c": curve, "pk": pk});
+                out.push(case);
+            }
+        }
     }
     out
 }
